@@ -27,7 +27,21 @@ type Config struct {
 	// of the outer archetype; "" = it serves until the outer context closes it
 	Nested string `json:"nested,omitempty"`
 	Skip1  bool   `json:"skip1,omitempty"` // the outer section L.s1 does not use the nested resource
+	// Protocol end points (Mix = nested): the nested archetype ends (NestedKind: done | err | assert) at request
+	// number NestedReq of the request/ack protocol - with NestedOn instead of answering it (after X_req, before
+	// X_ack), otherwise right after answering it (after X_ack, before the next request).  The outer section L.s0
+	// then reads and writes the nested resource (requests read, write, precommit, commit); with AbortOnce its
+	// first attempt aborts after the write (requests read, write, abort, then read, write, precommit, commit).
+	NestedReq  int    `json:"nested_req,omitempty"`
+	NestedOn   bool   `json:"nested_on,omitempty"`
+	NestedKind string `json:"nested_kind,omitempty"`
+	AbortOnce  bool   `json:"abort_once,omitempty"`
+	// Late: the late-answer schedule (run N times, not enumerated): the outer read of the nested resource times out
+	// while the nested handler is held; the nested system then answers late and reaches Done; then the outer aborts.
+	Late bool `json:"late,omitempty"`
 }
+
+func (c Config) proto() bool { return c.NestedReq > 0 }
 
 func (c Config) Name() string {
 	n := fmt.Sprintf("%s/%s/stops=%d", c.End, c.Mix, c.Stops)
@@ -42,6 +56,19 @@ func (c Config) Name() string {
 	}
 	if c.Skip1 {
 		n += "/s1-skips-r"
+	}
+	if c.proto() {
+		at := "after-ack"
+		if c.NestedOn {
+			at = "instead-of-ack"
+		}
+		n += fmt.Sprintf("/nested-%s-%s-of-req%d", c.NestedKind, at, c.NestedReq)
+	}
+	if c.AbortOnce {
+		n += "/s0-aborts-once"
+	}
+	if c.Late {
+		n += "/late-answer"
 	}
 	return n
 }
@@ -63,10 +90,12 @@ type world struct {
 	stop []*bubble.Thread
 	gate *bubble.Gate
 
-	regs      []*bubble.Logging // every instrumented resource that must be closed exactly once when the started run ends
-	rParking  int               // how many of them park the Run goroutine in Close
-	nestedCtx []*distsys.MPCalContext
-	nestedEnd *bubble.Thread // the nested archetype parked at its end label (self-ending nested configurations)
+	regs        []*bubble.Logging // every instrumented resource that must be closed exactly once when the started run ends
+	rParking    int               // how many of them park the Run goroutine in Close
+	nestedCtx   []*distsys.MPCalContext
+	nestedEnd   *bubble.Thread // the nested archetype parked at its end label (self-ending nested configurations)
+	nestedHold  *bubble.Thread // Late: the nested handler parked at its store
+	nestedEnded string         // how the nested archetype really ended on its own ("" = it did not)
 
 	fault      *bubble.Faulty
 	faultFired string // which failing construct really executed ("assert", "errorlabel")
@@ -94,9 +123,18 @@ func num(i int) tla.Value { return tla.MakeNumber(int32(i)) }
 // ends = "" : it serves forever.  Otherwise it ends on its own after having served `after` commit
 // requests (= critical sections of the outer archetype): "done" reaches its Done label (Run returns
 // nil), "err" returns an error, "assert" fails an assertion.
-func registerArchetype(ends string, after int) distsys.MPCalArchetype {
-	served := 0
+//
+// endReq > 0 (protocol end points): it ends at its endReq-th request instead - with endOn without
+// answering that request, otherwise right after answering it.
+func registerArchetype(ends string, after int, endReq int, endOn bool, onEnd func()) distsys.MPCalArchetype {
+	served, reqs := 0, 0
 	next := func() string {
+		if endReq > 0 {
+			if reqs >= endReq {
+				return "Reg.end"
+			}
+			return "Reg.loop"
+		}
 		if ends != "" && served >= after {
 			return "Reg.end"
 		}
@@ -122,6 +160,10 @@ func registerArchetype(ends string, after int) distsys.MPCalArchetype {
 		msg, err := iface.Read(in, nil)
 		if err != nil {
 			return err
+		}
+		if endReq > 0 && endOn && reqs+1 == endReq {
+			reqs++ // the request is consumed (this section commits), it is never answered
+			return iface.Goto("Reg.end")
 		}
 		var resp tla.Value
 		switch msg.ApplyFunction(tpe).AsString() {
@@ -149,9 +191,13 @@ func registerArchetype(ends string, after int) distsys.MPCalArchetype {
 		if err := iface.Write(out, nil, resp); err != nil {
 			return err
 		}
+		reqs++
 		return iface.Goto(next())
 	}}
 	end := distsys.MPCalCriticalSection{Name: "Reg.end", Body: func(iface distsys.ArchetypeInterface) error {
+		if onEnd != nil {
+			onEnd() // ground truth: the nested archetype really ended on its own
+		}
 		switch ends {
 		case "err":
 			return errNested
@@ -168,7 +214,7 @@ func registerArchetype(ends string, after int) distsys.MPCalArchetype {
 // a map, or a nested-archetype resource, depending on the mix).
 func (w *world) mainArchetype() distsys.MPCalArchetype {
 	cfg := w.cfg
-	isMap := cfg.Mix == "incmap" || cfg.Mix == "hashmap"
+	isMap := strings.HasPrefix(cfg.Mix, "incmap") || strings.HasPrefix(cfg.Mix, "hashmap")
 	touch := func(iface distsys.ArchetypeInterface, sec int) error {
 		a, err := iface.RequireArchetypeResourceRef("L.a")
 		if err != nil {
@@ -187,15 +233,33 @@ func (w *world) mainArchetype() distsys.MPCalArchetype {
 		if sec == 1 && cfg.Skip1 {
 			return nil
 		}
+		if sec == 0 && (cfg.proto() || cfg.Late) {
+			if _, err := iface.Read(r, nil); err != nil {
+				if cfg.Late && err == distsys.ErrCriticalSectionAborted {
+					// the read timed out; the body takes a while before it gives up (a scheduling point): the
+					// late answer of the nested system and its end fall between the timeout and the abort
+					w.R.Park("after-timeout")
+				}
+				return err
+			}
+			if cfg.Late {
+				return nil
+			}
+		}
 		var idx []tla.Value
 		if isMap {
 			idx = []tla.Value{num(sec + 1)} // section 0 touches r[1], section 1 touches r[2]
 		}
 		return iface.Write(r, idx, num(200+10*w.gate.Attempts+sec))
 	}
+	s0Attempts := 0
 	s0 := distsys.MPCalCriticalSection{Name: "L.s0", Body: func(iface distsys.ArchetypeInterface) error {
+		s0Attempts++
 		if err := touch(iface, 0); err != nil {
 			return err
+		}
+		if cfg.AbortOnce && s0Attempts == 1 {
+			return distsys.ErrCriticalSectionAborted // await FALSE after the write, once
 		}
 		return iface.Goto("L.s1")
 	}}
@@ -262,31 +326,50 @@ func build(cfg Config, s *bubble.Sched) *world {
 	if cfg.Mix == "closeerr" {
 		la.CloseErr = errClose
 	}
+	mapElem := func(name string) *bubble.Logging {
+		l := w.logging(name, park, local(3))
+		if strings.HasSuffix(cfg.Mix, "-closeerr") && name == "r[1]" {
+			l.CloseErr = errClose // the Close of the first (not the last) element reports an error
+		}
+		return l
+	}
 
 	var r distsys.ArchetypeResource
 	switch cfg.Mix {
 	case "plain", "closeerr":
 		r = w.logging("r", park, local(2))
-	case "incmap":
+	case "twopc":
+		// a 2PC resource without replicas (its pre-commit succeeds locally); its Close asserts that it is not
+		// in the middle of a critical section
+		r = w.logging("r", park, resources.VerifNewUnreplicatedTwoPC(num(2), "node"))
+	case "incmap", "incmap-closeerr":
 		m := resources.NewIncMap(func(index tla.Value) distsys.ArchetypeResource {
-			return w.logging("r["+index.String()+"]", park, local(3))
+			return mapElem("r[" + index.String() + "]")
 		})
 		r = w.logging("r", nil, m) // the map itself: counted, its Close is not a parking point (its elements' are)
-	case "hashmap":
+	case "hashmap", "hashmap-closeerr":
 		hm := hashmap.New[distsys.ArchetypeResource]()
 		for i := 1; i <= 3; i++ { // element 3 is configured but never touched
-			hm.Set(num(i), w.logging(fmt.Sprintf("r[%d]", i), park, local(3)))
+			hm.Set(num(i), mapElem(fmt.Sprintf("r[%d]", i)))
 		}
 		r = w.logging("r", nil, resources.NewHashMap(hm))
 	case "nested":
 		var ext *bubble.Thread
-		if s != nil && cfg.Nested == "" {
+		selfEnding := cfg.Nested != "" || cfg.proto() || cfg.Late
+		if s != nil && !selfEnding {
 			ext = s.External("N") // the inner resource's Close is a scheduling point only when the outer context closes the nested one
 		}
-		ends, after := "", 0
+		ends, after, endReq := "", 0, cfg.NestedReq
 		var nestedOpts []distsys.MPCalContextConfigFn
-		if cfg.Nested != "" {
-			ends, after = cfg.Nested[:len(cfg.Nested)-1], int(cfg.Nested[len(cfg.Nested)-1]-'0')
+		if selfEnding {
+			switch {
+			case cfg.Late:
+				ends, endReq = "done", 1 // it answers the (late) read and reaches Done
+			case cfg.proto():
+				ends = cfg.NestedKind
+			default:
+				ends, after = cfg.Nested[:len(cfg.Nested)-1], int(cfg.Nested[len(cfg.Nested)-1]-'0')
+			}
 			if s != nil {
 				// The nested archetype's last step (its end label) is a scheduling point of its own, granted as
 				// soon as it is reached (see execute): it ends at a quiescent point, after its last acknowledgement
@@ -301,10 +384,16 @@ func build(cfg Config, s *bubble.Sched) *world {
 		nested := resources.NewNested(func(sendCh chan<- tla.Value, receiveCh <-chan tla.Value) []*distsys.MPCalContext {
 			store := &bubble.Logging{Inner: local(4), Name: "nested.store", Who: "N", Log: w.log, ClosePark: ext}
 			w.regs = append(w.regs, store)
-			nctx := distsys.NewMPCalContext(tla.MakeString("reg"), registerArchetype(ends, after),
+			var storeRes distsys.ArchetypeResource = store
+			if cfg.Late && s != nil {
+				// the nested handler is held (a scheduling point of its own) while it looks at its store
+				w.nestedHold = s.External("N")
+				storeRes = &bubble.Yielding{Inner: store, Th: w.nestedHold, Name: "nested.store"}
+			}
+			nctx := distsys.NewMPCalContext(tla.MakeString("reg"), registerArchetype(ends, after, endReq, cfg.NestedOn, func() { w.nestedEnded = ends }),
 				distsys.EnsureArchetypeRefParam("in", resources.NewInputChan(receiveCh)),
 				distsys.EnsureArchetypeRefParam("out", resources.NewOutputChan(sendCh)),
-				distsys.EnsureArchetypeRefParam("store", store),
+				distsys.EnsureArchetypeRefParam("store", storeRes),
 				distsys.EnsureMPCalContextConfigs(nestedOpts...))
 			w.nestedCtx = append(w.nestedCtx, nctx)
 			return []*distsys.MPCalContext{nctx}
@@ -481,9 +570,11 @@ func (w *world) judge(evs []bubble.Event) *Failure {
 			}
 		}
 	}
-	// (5) a run ended by Stop ends at a label boundary: no resource is closed with operations of an unfinished attempt
+	// (5) whatever ended the run - a Stop (label boundary) or an error (the section in flight is rolled back first) -
+	// no resource is closed with operations of an unfinished attempt ("Close will be called when the archetype stops
+	// running (as a result, it's not in the middle of a critical section)")
 	endedByStop := err == nil && seqOf("begin", "L.Done") == 0
-	if endedByStop {
+	{
 		pending := map[string]int{}
 		for _, e := range evs {
 			if e.Who != "R" || e.Seq > run1Ret {
@@ -497,8 +588,11 @@ func (w *world) judge(evs []bubble.Event) *Failure {
 			case "commit", "abort":
 				pending[e.Res] = 0
 			case "close":
-				if pending[e.Res] > 0 {
+				if pending[e.Res] > 0 && endedByStop {
 					return &Failure{"stop-not-at-label-boundary", fmt.Sprintf("Run returned nil after a Stop but resource %s was closed in the middle of a critical section (%d operations neither committed nor aborted)", e.Res, pending[e.Res])}
+				}
+				if pending[e.Res] > 0 {
+					return &Failure{"closed-mid-section", fmt.Sprintf("the run ended with %v and resource %s was closed in the middle of the critical section in flight (%d operations neither committed nor aborted)", err, e.Res, pending[e.Res])}
 				}
 			}
 		}
@@ -507,17 +601,22 @@ func (w *world) judge(evs []bubble.Event) *Failure {
 	isA, isF, isB, isC := errors.Is(err, distsys.ErrAssertionFailed), errors.Is(err, distsys.ErrProcedureFallthrough), errors.Is(err, errBoom), errors.Is(err, errClose)
 	wantA, wantF := w.faultFired == "assert", w.faultFired == "errorlabel"
 	wantB := w.fault != nil && w.fault.Fired > 0
-	wantC := cfg.Mix == "closeerr"
-	if cfg.Nested != "" {
+	wantC := false // some resource whose Close reports an error was closed
+	for _, l := range w.regs {
+		if l.CloseErr != nil && l.Closes() > 0 {
+			wantC = true
+		}
+	}
+	if cfg.Nested != "" || cfg.proto() || cfg.Late {
 		// the outer archetype used the nested resource after the nested archetype had ended: Run must report that
 		// resource error (resources.ErrNestedArchetypeStopped), whatever else it reports
 		touchedStopped := false
 		for _, e := range evs {
-			if e.Who == "R" && e.Res == "r" && strings.Contains(e.Err, resources.ErrNestedArchetypeStopped.Error()) {
-				touchedStopped = true
+			if e.Who == "R" && e.Res == "r" && e.Seq < run1Ret && strings.Contains(e.Err, resources.ErrNestedArchetypeStopped.Error()) {
+				touchedStopped = true // (a body operation or the pre-commit of the section)
 			}
 		}
-		nestedFailed := strings.HasPrefix(cfg.Nested, "err") || strings.HasPrefix(cfg.Nested, "assert")
+		nestedFailed := w.nestedEnded == "err" || w.nestedEnded == "assert" // (what really happened, not what was configured)
 		switch {
 		case touchedStopped && !errors.Is(err, resources.ErrNestedArchetypeStopped):
 			return &Failure{"run-result", fmt.Sprintf("the outer archetype used the nested resource after the nested archetype had ended, but Run returned %v instead of reporting ErrNestedArchetypeStopped", err)}
